@@ -387,7 +387,7 @@ func observe(name string, fset *token.FileSet, f *ast.File, info *types.Info, sr
 }
 
 func main() {
-	mode := flag.String("mode", "events", "events | deadcode | rules | tags")
+	mode := flag.String("mode", "events", "events | deadcode | rules | history | tags")
 	files := flag.String("files", "", "comma separated Go files (events mode)")
 	ngen := flag.Int("gen", 0, "number of generated files")
 	size := flag.Int("size", 40, "statements per generated function")
@@ -456,6 +456,8 @@ func main() {
 		}
 	case "deadcode":
 		runDeadcode(enc, rng, *ngen, *size, *tmp)
+	case "history":
+		runHistory(enc, rng, *ngen, *size, *tmp)
 	case "rules":
 		var extra []string
 		for _, p := range strings.Split(*files, ",") {
